@@ -3,7 +3,9 @@
 A case is a *catalog structure*: explicit controllers, catalogs (own controller, a shared explicit
 controller, or the controller of an earlier catalog), catalogs nested inside members of other
 catalogs, catalogs produced by the helpers `segmentation_catalogs` / `generic_alt_specific_catalogs`,
-all embedded in a small formula over Beta / Numeric / Variable.  The harness keeps its own model of
+all embedded in a small formula over Beta / Numeric / Variable; members are composite expressions or a
+bare Beta / Variable / Numeric (what `generic_alt_specific_catalogs` and `Catalog.from_dict` of parameters
+produce).  The harness keeps its own model of
 the structure (which controllers exist, which member every catalog shows under a configuration, and
 the catalog-free formula obtained by writing the chosen members out by hand); the library is
 compared with that model.
@@ -24,6 +26,7 @@ from ..runner import Outcome, SubCheck
 import biogeme.catalog as bcat
 import biogeme.configuration as bconf
 import biogeme.controller as bctl
+import biogeme.expressions as bexpr
 import biogeme.segmentation as bseg
 from biogeme.expressions import NamedExpression
 
@@ -41,6 +44,13 @@ ASSUMPTIONS = [
     'values: vlib/refsem.py reference semantics with forward error bounds (ill-posed steps are not '
     'compared with the reference); the same engine evaluating the hand-written formula must agree '
     'bit for bit',
+    'operations through catalogs: MultipleExpression hands every tree operation to the selected member, so '
+    'on a configured formula they act as on the hand-written one; their meaning on a catalog-free formula '
+    'is the documented one: change_init_values(d) gives every parameter named in d, free or fixed, the '
+    'value d[name]; fix_betas(d, prefix, suffix) gives it the value, the status fixed and the name with '
+    'the affixes; rename_elementary(names, prefix, suffix) the name with the affixes; a dictionary never '
+    'holds a name together with its affixed form; the betas dictionary of an evaluation names free '
+    'parameters of the formula (or names foreign to it) only',
     'operators are looked up under the names prepare_operators gives them (Increase <c>, Decrease <c>, '
     'Pair_<a>_<b>_<NE|NW|SE|SW>, Increase_several, Decrease_several; names that two pairs would share are '
     'only checked for validity); the global `random` / numpy RNG is seeded from the spec before each call',
@@ -59,6 +69,7 @@ MAX_SET = 100  # library default of maximum_number_catalog_expressions
 #   ['Gas', h, i, a]        generic/alt-specific catalog of parameter i, alternative a, helper h
 
 LEAVES = {'Num', 'Lit', 'Beta', 'Var', 'Cat', 'Seg', 'Gas'}
+BARE_KINDS = {'Beta': 'Beta', 'Var': 'Variable', 'Num': 'Numeric', 'Lit': 'Numeric'}
 
 
 def xchildren(spec):
@@ -271,6 +282,28 @@ class Model:
             return ['Num', float(spec[1])]
         return xmap(spec, lambda s: self.substitute(s, cfg, False))
 
+    def reached(self, spec, cfg, acc=None):
+        """What the formula reaches THROUGH catalogs under cfg: acc['through'] = names of the parameters
+        inside selected members, acc['bare'] = {(kind, name or None)} of the selected members that are
+        a bare leaf (nested selections followed)."""
+        if acc is None:
+            acc = dict(through=set(), bare=set())
+        for node in xwalk(spec):
+            k = node[0]
+            if k == 'Cat':
+                ctl, names = self.cat_controller(node[1])
+                member = self.cats[node[1]]['members'][names.index(cfg[ctl])][1]
+                if member[0] in BARE_KINDS:
+                    acc['bare'].add((BARE_KINDS[member[0]], member[1] if member[0] in ('Beta', 'Var') else None))
+                acc['through'] |= {n[1] for n in refsem.walk(self.substitute(member, cfg)) if n[0] == 'Beta'}
+                self.reached(member, cfg, acc)
+            elif k in ('Seg', 'Gas'):
+                plain = self.substitute(node, cfg)
+                if plain[0] == 'Beta':
+                    acc['bare'].add(('Beta', plain[1]))
+                acc['through'] |= {n[1] for n in refsem.walk(plain) if n[0] == 'Beta'}
+        return acc
+
     def _kept(self, hp, cfg):
         wanted = cfg[hp['name']]
         for kept in seg_combinations(hp['segs'], hp['max']):
@@ -299,6 +332,11 @@ def classify(out, m):
             kinds.add('helper:generic_alt_specific' + ('+segmentation' if hp['segs'] else ''))
         if node[0] == 'LogLogit':
             kinds.add('catalogs_inside_loglogit')
+    for c in m.cats:
+        if c['name'] in m.catalogs:
+            for _, e in c['members']:
+                if e[0] in BARE_KINDS:
+                    kinds.add('member:bare_' + BARE_KINDS[e[0]])
     out.classes += sorted(kinds)
     if any(len(v) == 1 for v in m.order.values()):
         out.classes.append('controller_of_size_1')
@@ -1021,6 +1059,316 @@ def judge_selection(spec) -> Outcome:
 
 
 # ---------------------------------------------------------------------------------------------
+# sub-check 4: operations that go THROUGH the catalogs to the selected members
+#
+# operations of spec['ops'] (documented behaviour on any formula, hence on the hand-written one):
+#   ['init', {name: value}]                    change_init_values: every parameter named gets the value,
+#                                              free or fixed
+#   ['fix', {name: value}, prefix, suffix]     fix_betas: value, status fixed, name with the affixes
+#   ['rename', [names], prefix, suffix]        rename_elementary: name with the affixes
+
+OP_NAMES = dict(init='change_init_values', fix='fix_betas', rename='rename_elementary')
+
+
+def map_betas(plain, f):
+    if plain[0] == 'Beta':
+        return f(plain)
+    return xmap(plain, lambda s_: map_betas(s_, f))
+
+
+def _affixed(name, prefix, suffix):
+    return f'{prefix or ""}{name}{suffix or ""}'
+
+
+def model_apply(plain, op):
+    """The catalog-free formula after the operation, written by hand."""
+    kind = op[0]
+    if kind == 'init':
+        return map_betas(plain, lambda b: [b[0], b[1], op[1][b[1]], b[3], b[4], b[5]] if b[1] in op[1] else b)
+    if kind == 'fix':
+        return map_betas(plain, lambda b: ['Beta', _affixed(b[1], op[2], op[3]), op[1][b[1]], b[3], b[4], 1]
+                         if b[1] in op[1] else b)
+    if kind == 'rename':
+        return map_betas(plain, lambda b: ['Beta', _affixed(b[1], op[2], op[3]), b[2], b[3], b[4], b[5]]
+                         if b[1] in op[1] else b)
+    raise ValueError(f'C16 spec: unknown operation {kind!r}')
+
+
+def model_state(plain):
+    """What the hand-written formula says about its elementary expressions."""
+    params = {}
+    for n in refsem.walk(plain):
+        if n[0] == 'Beta':
+            params[n[1]] = [float(n[2]), 0 if n[5] == 0 else 1]
+    return dict(
+        params=params,
+        free=sorted(k for k, v in params.items() if v[1] == 0),
+        fixed=sorted(k for k, v in params.items() if v[1] != 0),
+        variables=sorted({n[1] for n in refsem.walk(plain) if n[0] == 'Var'}),
+        beta_values={k: v[0] for k, v in params.items() if v[1] == 0},
+    )
+
+
+def evaluation_betas(spec, plain):
+    """The dictionary handed over at evaluation time: free parameters of the formula only (the
+    documented meaning of `betas`) and names foreign to the formula."""
+    fixed = set(model_state(plain)['fixed'])
+    return {k: v for k, v in spec['eval_betas'].items() if k not in fixed}
+
+
+def library_apply(obj, op):
+    if op[0] == 'init':
+        obj.change_init_values(dict(op[1]))
+    elif op[0] == 'fix':
+        obj.fix_betas(dict(op[1]), prefix=op[2], suffix=op[3])
+    else:
+        obj.rename_elementary(list(op[1]), prefix=op[2], suffix=op[3])
+
+
+def _snapshot(res, who, obj, database, engine, betas, probe):
+    """Plain data describing one formula object (the configured one or the hand-written one)."""
+    T = bexpr.TypeOfElementaryExpression
+    g = lambda stage, fn, *a, **kw: _guard(res, f'{who}:{stage}', fn, *a, **kw)  # noqa: E731
+    snap = dict(
+        free=sorted(g('set_of_elementary_expression', obj.set_of_elementary_expression, T.FREE_BETA)),
+        fixed=sorted(g('set_of_elementary_expression', obj.set_of_elementary_expression, T.FIXED_BETA)),
+        variables=sorted(g('set_of_elementary_expression', obj.set_of_elementary_expression, T.VARIABLE)),
+        beta_values={k: float(v) for k, v in g('get_beta_values', obj.get_beta_values).items()},
+    )
+    params = g('dict_of_elementary_expression', obj.dict_of_elementary_expression, T.BETA)
+    snap['params'] = {k: [float(b.initValue), 0 if b.status == 0 else 1, b.name] for k, b in params.items()}
+    found = {}
+    for name in probe:
+        e = g('get_elementary_expression', obj.get_elementary_expression, name)
+        found[name] = None if e is None else [type(e).__name__, e.name]
+    snap['found'] = found
+    try:
+        snap['python'] = float(obj.get_value())
+    except Exception as exc:  # noqa
+        snap['python_exc'] = [type(exc).__name__, type(exc).__module__, str(exc)[:200]]
+    if engine:
+        snap['value'] = np.asarray(g('get_value_c', obj.get_value_c, database=database, betas=None,
+                                     prepare_ids=True), dtype=float).tolist()
+        if betas is not None:
+            snap['value_betas'] = np.asarray(g('get_value_c(betas)', obj.get_value_c, database=database,
+                                               betas=dict(betas), prepare_ids=True), dtype=float).tolist()
+    return snap
+
+
+def _op_probe_names(spec):
+    names = set(spec['eval_betas'])
+    for op in spec['ops']:
+        names |= set(op[1])
+        if op[0] != 'init':
+            names |= {_affixed(n, op[2], op[3]) for n in op[1]}
+    return sorted(names)
+
+
+def _observe_through(spec):
+    res = dict(points=[])
+    m = Model(spec)
+    try:
+        database = build.build_database(spec['table'])
+        b = CatalogBuilder(spec)
+        expression = _guard(res, 'build', b.build, spec['root'])
+        cats = real_catalogs(expression)
+        res['orders'] = {c.controlled_by.controller_name: list(c.controlled_by.specification_names) for c in cats}
+        for n in m.names:
+            if m.kind[n] != 'helper':
+                continue  # the parent has compared these with the model, in order
+            if n in res['orders'] and sorted(res['orders'][n]) == sorted(m.order[n]):
+                m.order[n] = res['orders'][n]
+            else:
+                res['structure_mismatch'] = True
+                return res
+        cur = None
+        for step in spec['sets']:
+            cur = m.config_from_indices(step[1])
+            _guard(res, 'configure_catalogs', expression.configure_catalogs,
+                   make_configuration(cur, step[2], step[3]))
+        res['cfg'] = dict(cur)
+        res['current'] = conf_dict(_guard(res, 'current_configuration', expression.current_configuration))
+        res['shown'] = shown(cats)
+        plain = m.substitute(spec['root'], cur)
+        hand = build.Builder(overloads=bool(spec.get('overloads'))).build(plain)
+        probe = _op_probe_names(spec)
+        point = dict(op=None)
+        res['points'].append(point)
+        point['real'] = _snapshot(res, 'configured', expression, database, False, None, probe)
+        point['hand'] = _snapshot(res, 'hand_written', hand, database, False, None, probe)
+        for i, op in enumerate(spec['ops']):
+            point = dict(op=op[0])
+            res['points'].append(point)
+            name = OP_NAMES[op[0]]
+            _guard(res, name, library_apply, expression, op)
+            _guard(res, f'hand_written:{name}', library_apply, hand, op)
+            plain = model_apply(plain, op)
+            betas = evaluation_betas(spec, plain) if i == len(spec['ops']) - 1 else None
+            point['real'] = _snapshot(res, name, expression, database, True, betas, probe)
+            point['hand'] = _snapshot(res, f'hand_written:{name}', hand, database, True, betas, probe)
+            # the formula the harness writes by hand for the state AFTER the operation, untouched by
+            # any library operation
+            fresh = build.Builder(overloads=bool(spec.get('overloads'))).build(plain)
+            point['fresh'] = np.asarray(fresh.get_value_c(database=database, betas=None, prepare_ids=True),
+                                        dtype=float).tolist()
+    except _Stop:
+        pass
+    return res
+
+
+def _reference_or_none(spec, plain, betas):
+    try:
+        return _reference(spec, plain, betas)
+    except (refsem.IllPosed, OverflowError):
+        return None
+
+
+def _close(values, ref):
+    return len(ref) == len(values) and all(
+        math.isfinite(g) and abs(g - ev.v) <= _tol(ev) for g, ev in zip(values, ref))
+
+
+def judge_through(spec) -> Outcome:
+    out = Outcome()
+    prep = prepare(spec, out, 'through')  # model, structural comparison (pure Python, in-process)
+    if prep is None:
+        return out
+    m = prep[0]
+    out.nontrivial = False
+    r = isolate.call(_observe_through, spec)
+    if not r['ok']:
+        out.fail(f'through:child:raises:{r["exc_type"]}',
+                 f'{r["exc_type"]}: {(r["exc_msg"] or "")[:300]} for {render(spec)[:300]}')
+        return out
+    obs = r['value']
+    if obs.get('structure_mismatch') or (
+            'orders' in obs and any(obs['orders'].get(n) != m.order[n] for n in m.names)):
+        out.fail('through:structure', f'controllers in the child {obs.get("orders")} vs {m.order}')
+        return out
+    if 'cfg' in obs and 'shown' in obs:
+        cfg = obs['cfg']
+        if not m.valid(cfg) or cfg != m.config_from_indices(spec['sets'][-1][1]):
+            raise RuntimeError(f'C16 harness: child configuration {cfg} is not the one of the spec')
+        if obs['current'] != cfg:
+            out.fail('through:current_configuration',
+                     f'after configure_catalogs({cfg}) the formula reports {obs["current"]}')
+        wrong = [s_ for s_ in obs['shown'] if s_[2] != cfg[s_[1]]]
+        if wrong:
+            out.fail('through:shown', f'after configure_catalogs({cfg}): catalog {wrong[0][0]!r} governed by '
+                                      f'{wrong[0][1]!r} shows member {wrong[0][2]!r}')
+        reach = m.reached(spec['root'], cfg)
+        for kind, _ in sorted(reach['bare'], key=repr):
+            out.classes.append(f'selected_member:bare_{kind}')
+        bare_betas = {n for kind, n in reach['bare'] if kind == 'Beta'}
+        plain = m.substitute(spec['root'], cfg)
+        label = f'{cfg} of {render(spec)[:500]}'
+        hits_through = False
+        for i, point in enumerate(obs['points']):
+            if 'real' not in point or 'hand' not in point:
+                break  # the error entry below names the stage
+            opname = 'configured'
+            if i > 0:
+                op = spec['ops'][i - 1]
+                opname = OP_NAMES[op[0]]
+                before = model_state(plain)
+                plain = model_apply(plain, op)
+                touched = {n for n in op[1] if n in before['params'] and (
+                    op[0] != 'init' or before['params'][n][0] != float(op[1][n]))
+                    and (op[0] != 'rename' or op[2] is not None or op[3] is not None)}
+                # `reach` speaks of the names before any renaming: follow them
+                if touched & bare_betas:
+                    out.classes.append(f'{opname}:changes_bare_member')
+                if touched & reach['through']:
+                    hits_through = True
+                    out.classes.append(f'{opname}:changes_selected_member')
+                elif touched:
+                    out.classes.append(f'{opname}:changes_outside_catalogs')
+                else:
+                    out.classes.append(f'{opname}:changes_nothing')
+                if op[0] != 'init':
+                    ren = lambda n, op=op: _affixed(n, op[2], op[3]) if n in op[1] else n  # noqa: E731
+                    bare_betas = {ren(n) for n in bare_betas}
+                    reach['through'] = {ren(n) for n in reach['through']}
+            out.evaluations += 1
+            want = model_state(plain)
+            where = f'after {[list(o) for o in spec["ops"][:i]]} on {label}'
+            for who, snap, prefix in (('the formula with catalogs', point['real'], f'through:{opname}'),
+                                      ('the formula written out by hand', point['hand'],
+                                       f'through:hand_written:{opname}')):
+                for field, key in (('free', 'free_parameters'), ('fixed', 'fixed_parameters'),
+                                   ('variables', 'variables'), ('beta_values', 'get_beta_values')):
+                    if snap[field] != want[field]:
+                        out.fail(f'{prefix}:{key}', f'{who}: {key} {snap[field]}, expected {want[field]}; {where}')
+                got = {k: v[:2] for k, v in snap['params'].items()}
+                if got != want['params'] or any(k != v[2] for k, v in snap['params'].items()):
+                    out.fail(f'{prefix}:parameters',
+                             f'{who}: parameters (value, fixed) {snap["params"]}, expected {want["params"]}; {where}')
+                for name, e in snap['found'].items():
+                    expected = ['Beta', name] if name in want['params'] else (
+                        ['Variable', name] if name in want['variables'] else None)
+                    if e != expected:
+                        out.fail(f'{prefix}:get_elementary_expression',
+                                 f'{who}: get_elementary_expression({name!r}) gives {e}, expected {expected}; {where}')
+                        break
+            real, hand = point['real'], point['hand']
+            # Python-side evaluation: same answer, or the same refusal
+            if ('python' in real) != ('python' in hand) or (
+                    'python' in real and not _same([real['python']], [hand['python']])) or (
+                    'python_exc' in real and real['python_exc'][0] != hand['python_exc'][0]):
+                out.fail(f'through:{opname}:python:differs_from_hand_written',
+                         f'get_value(): {real.get("python", real.get("python_exc"))} vs '
+                         f'{hand.get("python", hand.get("python_exc"))} of the formula written out by hand; {where}')
+            if 'python' in hand and 'python' in real and not want['variables']:
+                pref = _reference_or_none(spec, plain, {})
+                if pref is not None and not _close([real['python']], pref[:1]):
+                    out.fail(f'through:{opname}:python:value',
+                             f'get_value() {real["python"]!r} vs reference {pref[0].v!r} of '
+                             f'{refsem.render(plain)[:300]}; {where}')
+            if i == 0:
+                continue
+            if 'value' not in real or 'value' not in hand or 'fresh' not in point:
+                break
+            if not _same(real['value'], hand['value']):
+                out.fail(f'through:{opname}:value:differs_from_hand_written',
+                         f'engine value {real["value"]} of the configured formula vs {hand["value"]} of the '
+                         f'formula written out by hand ({refsem.render(plain)[:300]}), both after the same '
+                         f'operations; {where}')
+            if not _same(hand['value'], point['fresh']):
+                out.fail(f'through:hand_written:{opname}:value',
+                         f'catalog-free formula after the operation evaluates to {hand["value"]}, the same '
+                         f'formula written with the new values {refsem.render(plain)[:300]} to {point["fresh"]}; {where}')
+            ref = _reference_or_none(spec, plain, {})
+            if ref is None:
+                out.classes.append('step_ill_posed')
+            elif not _close(real['value'], ref):
+                out.fail(f'through:{opname}:value:reference',
+                         f'engine value {real["value"]} vs reference {[ev.v for ev in ref]} of '
+                         f'{refsem.render(plain)[:300]}; {where}')
+            if i == len(spec['ops']):
+                if 'value_betas' not in real or 'value_betas' not in hand:
+                    break
+                betas = evaluation_betas(spec, plain)
+                out.classes.append('evaluation_betas:' + (
+                    'names_selected_member' if set(betas) & reach['through'] else
+                    'names_formula' if set(betas) & set(want['params']) else 'foreign_only'))
+                if not _same(real['value_betas'], hand['value_betas']):
+                    out.fail('through:value_with_betas:differs_from_hand_written',
+                             f'engine value with betas={betas}: {real["value_betas"]} vs {hand["value_betas"]} of '
+                             f'the formula written out by hand; {where}')
+                ref = _reference_or_none(spec, plain, betas)
+                if ref is not None and not _close(real['value_betas'], ref):
+                    out.fail('through:value_with_betas:reference',
+                             f'engine value with betas={betas}: {real["value_betas"]} vs reference '
+                             f'{[ev.v for ev in ref]} of {refsem.render(plain)[:300]}; {where}')
+        out.nontrivial = bool(hits_through and m.size() >= 2)
+    if 'error' in obs:
+        e = obs['error']
+        out.fail(f'through:{e["stage"]}:raises:{e["type"]}',
+                 f'{e["stage"]} raised {e["type"]}: {e["msg"]} at point {len(obs["points"]) - 1} of {render(spec)[:400]}')
+    return out
+
+
+# ---------------------------------------------------------------------------------------------
 # rendering
 
 
@@ -1056,6 +1404,8 @@ def render(spec):
     txt = f'{render_expr(spec["root"], spec)}  where ' + '; '.join(parts)
     if 'history' in spec:
         txt += f'  history={spec["history"]}'
+    if 'ops' in spec:
+        txt += f'  sets={spec["sets"]} ops={spec["ops"]} eval_betas={spec["eval_betas"]}'
     return txt[:1500]
 
 
@@ -1113,6 +1463,14 @@ class _Gen:
             return self.beta()
         return ['Var', self.choose(REAL_COLS)]
 
+    def bare_leaf(self):
+        k = self.draw(st.integers(0, 3))
+        if k == 0:
+            return ['Num', self.draw(_dyadic(-3, 3))]
+        if k == 1 and self.variables:
+            return ['Var', self.choose(REAL_COLS)]
+        return self.beta()
+
     def tree(self, depth, refs=(), pref=0.0):
         if refs and self.p(pref):
             return list(self.choose(refs))
@@ -1164,7 +1522,7 @@ class _Gen:
 
 
 @st.composite
-def structures(draw, tier='quick', cap=MAX_SET, variables=None):
+def structures(draw, tier='quick', cap=MAX_SET, variables=None, bare=0.2):
     big = tier == 'thorough'
     if variables is None:
         variables = draw(st.integers(0, 3)) > 0
@@ -1250,8 +1608,11 @@ def structures(draw, tier='quick', cap=MAX_SET, variables=None):
             mnames = draw(st.lists(st.sampled_from(MEMBER_NAMES), min_size=size, max_size=size, unique=True))
         members = []
         nest = k > 0 and p(0.55)
+        flat = p(0.5 * bare)  # a catalog of bare leaves only, e.g. Catalog.from_dict of parameters
         for mn in mnames:
-            if nest and p(0.6):
+            if flat:
+                members.append([mn, g.beta() if p(0.6) else g.bare_leaf()])
+            elif nest and p(0.6):
                 j = draw(st.integers(0, k - 1))
                 used.add(j)
                 members.append([mn, g.around(['Cat', j])])
@@ -1259,6 +1620,8 @@ def structures(draw, tier='quick', cap=MAX_SET, variables=None):
                 members.append([mn, g.around(pending_helper.pop())])
             elif p(0.08):
                 members.append([mn, ['Lit', draw(_dyadic(-3, 3))]])
+            elif p(bare):
+                members.append([mn, g.bare_leaf()])  # a bare Beta / Variable / Numeric, not a composite
             else:
                 members.append([mn, g.tree(2, refs=[['Cat', j] for j in range(k)], pref=0.05)])
         catalogs.append(dict(name=names.pop(), ctl=ctl, members=members, from_dict=p(0.25)))
@@ -1354,6 +1717,59 @@ def strat_selection(draw, tier):
     return spec
 
 
+def all_beta_names(spec):
+    """Names of every parameter the structure can show (harness knowledge of the helpers included)."""
+    names = {n[1] for n in all_nodes(spec) if n[0] == 'Beta'}
+    for hp in spec['helpers']:
+        for b in hp['betas']:
+            family = [b[1]] + [f'{b[1]}_{a}' for a in hp.get('alts', [])]
+            names |= set(family)
+            names |= {f'{n}_{c}' for n in family for _, mp, _ in hp['segs'] for _, c in mp}
+    return sorted(names)
+
+
+FOREIGN_NAMES = ['zz', 'b1_x', 'unknown', 'hA_']
+PREFIXES = [None, None, 'fx_', 'P.', 'é ']
+SUFFIXES = [None, None, '_fx', '.s']
+
+
+@st.composite
+def strat_through(draw, tier):
+    spec = draw(structures(tier, cap=MAX_SET, bare=0.45))
+    spec['sets'] = draw(st.lists(_set_steps(), min_size=1, max_size=2))
+    originals = all_beta_names(spec)
+    known = list(originals)  # grows with the names the operations create
+
+    def names(pool, lo):
+        chosen = draw(st.lists(st.sampled_from(pool), min_size=min(lo, len(pool)), max_size=min(8, len(pool)),
+                               unique=True)) if pool else []
+        if not chosen or draw(st.integers(0, 4)) == 0:
+            chosen = chosen + [draw(st.sampled_from(FOREIGN_NAMES))]
+        return chosen
+
+    ops = []
+    for _ in range(draw(st.integers(1, 3))):
+        kind = draw(st.sampled_from(['init', 'init', 'init', 'fix', 'fix', 'rename']))
+        if kind == 'init':
+            ops.append(['init', {n: draw(_dyadic(-2, 2)) for n in names(known, 3)}])
+            continue
+        prefix, suffix = draw(st.sampled_from(PREFIXES)), draw(st.sampled_from(SUFFIXES))
+        # with affixes only names that carry none yet: a dictionary never holds a name and its affixed form
+        chosen = names(originals if (prefix or suffix) else known, 2)
+        if kind == 'fix':
+            ops.append(['fix', {n: draw(_dyadic(-2, 2)) for n in chosen}, prefix, suffix])
+        else:
+            ops.append(['rename', chosen, prefix, suffix])
+        known += [x for x in (_affixed(n, prefix, suffix) for n in chosen) if x not in known]
+    spec['ops'] = ops
+    chosen = draw(st.lists(st.sampled_from(known), min_size=min(3, len(known)), max_size=min(8, len(known)),
+                           unique=True)) if known else []
+    if draw(st.integers(0, 3)) == 0:
+        chosen.append(draw(st.sampled_from(FOREIGN_NAMES)))
+    spec['eval_betas'] = {n: draw(_dyadic(-2, 2)) for n in chosen}
+    return spec
+
+
 _NT = 'non-trivial: a controller shared by >= 2 catalogs AND a catalog nested in a member of another AND >= 4 configurations'
 
 SUBCHECKS = [
@@ -1370,5 +1786,16 @@ SUBCHECKS = [
              'history of 2-5 (2-8) configurations set directly or reached through operators on ONE formula '
              'object: shown members, current_configuration, engine value (and get_value / database-free value) '
              'against the hand-substituted catalog-free formula; ' + _NT, max_skip_fraction=0.3),
+    SubCheck('through', strat_through, judge_through, render, dict(quick=1000, thorough=25000),
+             'one configuration selected on a structure rich in catalogs whose members are a bare Beta / '
+             'Variable / Numeric, then 1-3 operations applied THROUGH the catalogs (change_init_values, '
+             'fix_betas, rename_elementary with generated dictionaries and affixes) to the formula with '
+             'catalogs and to the hand-substituted formula: after each one the sets of free / fixed '
+             'parameters and variables, get_beta_values, parameter values and status, '
+             'get_elementary_expression, get_value and the engine value without betas (finally with a betas '
+             'dictionary) agree with the hand-written formula subjected to the same operations, with the '
+             'formula the harness writes for the new state, and with the reference value; non-trivial: '
+             '>= 2 configurations AND an operation changes the value, status or name of a parameter inside '
+             'a selected catalog member'),
 ]
 RULE = ' | '.join(f'{s.name}: {s.rule}' for s in SUBCHECKS)
